@@ -390,9 +390,37 @@ def concLine (w : List String) : String :=
 
 /-! ## accept / incoming -/
 
+def nextPow2' (n : Nat) : Nat := if n ≤ 1 then 1 else if n ≤ 2 then 2 else if n ≤ 4 then 4 else if n ≤ 8 then 8 else 16
+
+/-- cut a list into pieces of `k` -/
+def piecesOf {α} (k : Nat) : Nat → List α → List (List α)
+  | 0, _ => []
+  | fuel + 1, l => if l.isEmpty ∨ k = 0 then [] else l.take k :: piecesOf k fuel (l.drop k)
+
+open Compio.MultiStream in
+/-- `accept … burst n cap`: the first connection (tag 255) arms the accept, then `n` connections arrive
+while nobody reaps completions.  io_uring: when the completion queue (2 × capacity entries) is full the
+kernel ends the multishot accept with a final *successful* completion (descriptor, no `F_MORE`) and
+compio re-submits; how many connections each submission takes is the kernel's business — the result
+does not depend on it (`incoming_exactly_once_or_closed` is stated for every script). -/
+def acceptBurst (drv : String) (n cap : Nat) : String :=
+  let all := 255 :: List.range n
+  let q := 2 * nextPow2' cap
+  let subs : List (List ACqe) :=
+    if drv = "uring" then
+      (piecesOf q (all.length + 1) all).map fun piece =>
+        if piece.length = q then
+          (piece.dropLast.map fun i => (⟨.fd i, true⟩ : ACqe)) ++ (piece.getLast?.toList.map fun i => ⟨.fd i, false⟩)
+        else piece.map fun i => ⟨.fd i, true⟩
+    else all.map fun i => [⟨.fd i, false⟩]
+  let s := (Inc.take all.length (Inc.new subs)).2.drop
+  let ids := (s.yielded.filter (· != 255)).mergeSort (· ≤ ·)
+  s!"ids={",".intercalate (ids.map toString)} closed={s.closed.length}"
+
 open Compio.MultiStream in
 def acceptLine (w : List String) : String :=
   match w with
+  | ["accept", _, drv, "burst", n, cap] => acceptBurst drv (n.toNat?.getD 0) (cap.toNat?.getD 1)
   | ["accept", _, drv, mode, k, extra] =>
     let k := k.toNat?.getD 0
     let extra := extra.toNat?.getD 0
